@@ -395,6 +395,14 @@ enum Name {
     Namespace(FileOrLib, Span),
 }
 
+/// The fields of a blob (or variants of an enum) in the order they are written,
+/// so that which error is reported first does not depend on the hash order.
+fn in_source_order<T>(items: &HashMap<Identifier, T>) -> Vec<(&Identifier, &T)> {
+    let mut items: Vec<_> = items.iter().collect();
+    items.sort_by_key(|(ident, _)| (ident.span.line_start, ident.span.col_start));
+    items
+}
+
 struct Resolver {
     namespaces: HashMap<FileOrLib, HashMap<String, Name>>,
     stack: Vec<(String, Ref)>,
@@ -901,8 +909,8 @@ impl Resolver {
                     var,
                     span,
                     variables: variables.iter().map(|var| var.name.clone()).collect(),
-                    fields: fields
-                        .iter()
+                    fields: in_source_order(fields)
+                        .into_iter()
                         .map(|(field, ty)| Ok((field.name.clone(), (field.span, self.ty(ty)?))))
                         .collect::<ResolveResult<_>>()?,
                     external: *external,
@@ -915,8 +923,8 @@ impl Resolver {
                     var,
                     span,
                     variables: variables.iter().map(|var| var.name.clone()).collect(),
-                    variants: variants
-                        .iter()
+                    variants: in_source_order(variants)
+                        .into_iter()
                         .map(|(var, ty)| Ok((var.name.clone(), (var.span, self.ty(ty)?))))
                         .collect::<ResolveResult<_>>()?,
                 })
